@@ -147,7 +147,46 @@ def h_iterchunks(n: int, c: int, a: int, b: int, rem: bool, probe: int, atom=(),
 
 
 # ---- E2: lemmas generated from the source AST, decided by three solvers --------------------------------------
+def _side_smt():
+    return ''.join(f'(declare-const {d} Int)' for d in py2smt.SIDE['decls']) + \
+        ''.join(f'(assert {a})' for a in py2smt.SIDE['asserts'])
+
+
+def _float_search(qs, usestep):
+    """fit_frames uses true division: the encoding is exact only below 2^53.  Look for a refutation where doubles
+    cannot represent odd integers (divisor 1, odd dividend in (2^53, 2^54)) and CONFIRM it on the real function."""
+    import z3
+    darr, np_ = rp.real()
+    real = darr.utils.fit_frames
+    for pc, ok in qs:
+        for (name, a, b) in py2smt.SIDE['quots']:
+            sol = z3.Solver()
+            sol.set('timeout', 20000)
+            sol.from_string('(declare-const t Int)(declare-const c Int)(declare-const s Int)' + _side_smt()
+                            + ''.join(f'(assert {p})' for p in pc) + f'(assert (not {ok}))'
+                            + f'(assert (= {b} 1))(assert (> {a} 9007199254740992))(assert (< {a} 18014398509481984))'
+                            + f'(assert (= (mod {a} 2) 1))')
+            if str(sol.check()) != 'sat':
+                continue
+            m = sol.model()
+            t, c, s = (m.eval(z3.Int(x), model_completion=True).as_long() for x in ('t', 'c', 's'))
+            sv = s if usestep else None
+            step = s if usestep else c
+            if not (t >= 0 and c >= 1 and step >= 1 and c <= t):
+                continue
+            K = (t - c) // step + 1
+            want = (K, (K - 1) * step + c, t - ((K - 1) * step + c))
+            try:
+                got = tuple(int(x) for x in real(t, c, sv))
+            except Exception as e:
+                got = repr(e)
+            if got != want:
+                return {'t': t, 'c': c, 's': s, 'usestep': usestep, 'got': str(got), 'want': str(want)}
+    return None
+
+
 def _fitframes_paths(usestep):
+    py2smt.reset_side()
     fn = py2smt.find_function(os.path.join(REPO, 'darr', 'utils.py'), 'fit_frames')
     env = {'totallen': Sym('int', 't'), 'chunklen': Sym('int', 'c'),
            'steplen': Sym('int', 's') if usestep else Sym('none', None)}
@@ -191,7 +230,7 @@ def _smt_for(qs, decls=('t', 'c', 's'), extra=''):
 def _validate_translator():
     """push the repository's own FitChunks inputs and a grid through the real function and the encoding"""
     import z3
-    from darr.utils import fit_frames as real
+    real = rp.real()[0].utils.fit_frames
     cases = [(10, 2, None), (10, 3, None), (10, 3, 1), (10, 11, None), (0, 1, None), (7, 7, 7), (12, 5, 2),
              (13, 2, None), (12, 2, None), (5, 0, None), (-1, 2, None), (5, 2, 0), (5, 2, -1), (3, 5, 0)]
     cases += [(t, c, s) for t in range(0, 7) for c in range(0, 5) for s in (None, 1, 2, 3)]
@@ -214,7 +253,7 @@ def _validate_translator():
                 extra = ''
                 if out[0] == 'return':
                     extra = ''.join(f'(declare-const r{i} Int)(assert (= r{i} {term}))' for i, term in enumerate(out[1]))
-                sol.from_string(decl + _vals(t, c, s) + cond + extra)
+                sol.from_string(decl + _side_smt() + _vals(t, c, s) + cond + extra)
                 if str(sol.check()) == 'sat':
                     m = sol.model()
                     if out[0] == 'return':
@@ -281,11 +320,28 @@ def h_lemmas(**kw):
             import z3
             for pc, ok in qs:
                 sol = z3.Solver()
-                sol.from_string('(declare-const t Int)(declare-const c Int)(declare-const s Int)'
+                sol.from_string('(declare-const t Int)(declare-const c Int)(declare-const s Int)' + _side_smt()
                                 + ''.join(f'(assert {p})' for p in pc))
                 if str(sol.check()) != 'sat':
                     return dict(status='vacuous', reason='a path condition of fit_frames is unsatisfiable',
                                 paths=nval, paths_ok=0, solver={}, reached=[], notes=[])
+            if py2smt.SIDE['quots']:
+                # true division int(a / b) in the source: exact below 2^53, over-approximated above
+                fc = _float_search(qs, usestep)
+                if fc is not None:
+                    return dict(status='violated', paths=nval, paths_ok=nval, reached=['end'], notes=[], lemmas=lemmas,
+                                solver={'queries': len(qs), 'solver_s': round(time.time() - t0, 3)},
+                                what=f'fit_frames computes its frame count with floating-point division: '
+                                     f'fit_frames({fc["t"]}, {fc["c"]}, {fc["s"] if usestep else None}) = {fc["got"]}, '
+                                     f'the specification gives {fc["want"]}', cex=fc, reason='')
+                bound = ('(assert (and (< t 9007199254740992) (< c 9007199254740992) (< s 9007199254740992)))')
+                res = py2smt.run_solvers(_smt_for(qs, extra=_side_smt() + bound))
+                lemmas.append({'name': f'fit_frames spec, steplen {"given" if usestep else "None"}: the source divides with '
+                                       f'"/" - decided only for arguments below 2^53 where int(a / b) == a // b; no deviation '
+                                       f'found above by the steered search', 'solvers': res + [
+                                           {'solver': 'bound', 'verdict': 'unknown', 'seconds': 0.0,
+                                            'raw': 'float division: not decided beyond 2^53'}]})
+                continue
             smt = _smt_for(qs)
             res = py2smt.run_solvers(smt)
             lemmas.append({'name': f'fit_frames spec, steplen {"given" if usestep else "None"} (unbounded ints, '
@@ -339,7 +395,7 @@ def replay_c14(cex, d):
     ob = d.get('ob') or d.get('obligation')
     if ob == 'FIT':
         t, c, s = int(fx['t']), int(fx['c']), int(fx['s']) if fx['usestep'] else None
-        from darr.utils import fit_frames
+        fit_frames = rp.real()[0].utils.fit_frames
         step = s if s is not None else c
         valid = t >= 0 and c >= 1 and step >= 1
         try:
@@ -422,6 +478,19 @@ def replay_c14(cex, d):
                 return {'reproduced': True, 'detail': 'chunks do not concatenate to a[start:end]'}
         return {'reproduced': False, 'detail': 'iterchunks as specified'}
     if ob == 'E2':
+        if 't' in fx and 'want' in fx:
+            fit_frames = rp.real()[0].utils.fit_frames
+            t, c, s = int(fx['t']), int(fx['c']), int(fx['s']) if fx.get('usestep') else None
+            step = s if s is not None else c
+            K = (t - c) // step + 1
+            want = (K, (K - 1) * step + c, t - ((K - 1) * step + c))
+            try:
+                got = tuple(int(x) for x in fit_frames(t, c, s))
+            except Exception as e:
+                got = repr(e)
+            if got != want:
+                return {'reproduced': True, 'detail': f'fit_frames({t}, {c}, {s}) = {got}; exact integer arithmetic gives {want}'}
+            return {'reproduced': False, 'detail': f'fit_frames({t}, {c}, {s}) = {got} is right'}
         return {'reproduced': True, 'detail': str(cex)}
     return {'reproduced': False, 'detail': 'no replay for ' + ob}
 
